@@ -165,4 +165,13 @@ let run_script (cmds : string list) : string =
   (try List.iter step cmds with Dead _ -> ());
   Buffer.contents out
 
-let () = main_loop run_script
+(* deep (non-tail) recursion of the extracted list functions on 64 KiB snapshots needs more
+   than the default 8 MiB stack: re-run this program once under a raised soft limit *)
+let () =
+  match Sys.getenv_opt "DRV_SNAP_BIGSTACK" with
+  | Some _ -> main_loop run_script
+  | None ->
+    let cmd = Printf.sprintf
+        "ulimit -s unlimited 2>/dev/null || ulimit -s 1000000 2>/dev/null || ulimit -s 200000 2>/dev/null; DRV_SNAP_BIGSTACK=1 exec %s"
+        (Filename.quote Sys.executable_name) in
+    exit (Sys.command cmd)
